@@ -33,7 +33,17 @@ class SemiringGen:
         data = self.rng.choice(GRID, size=shape)
         if self.carrier == "nonneg":
             data = np.abs(data)
-        t = ("ten", np.ascontiguousarray(data, dtype=np.float64), tuple(names), "real")
+        data = np.ascontiguousarray(data, dtype=np.float64)
+        if self.prod_op == "add" and self.sum_op in ("logaddexp", "max") and data.ndim and self.rng.random() < 0.2:
+            # log of zero probability: single -inf entries, or a whole slice that is -inf along the other names (impossible state)
+            if self.rng.random() < 0.5:
+                data[self.rng.random(data.shape) < 0.3] = -np.inf
+            else:
+                ax = int(self.rng.integers(data.ndim))
+                idx = [slice(None)] * data.ndim
+                idx[ax] = int(self.rng.integers(data.shape[ax]))
+                data[tuple(idx)] = -np.inf
+        t = ("ten", data, tuple(names), "real")
         if self.rng.random() < self.real_param:
             x = ("var", self.choice(["x", "y"]), ("real", ()))
             if self.carrier == "nonneg":
